@@ -2,4 +2,4 @@ From Coq Require Import Extraction ExtrOcamlBasic.
 From Cddl Require Import Parent.Tree Parent.Arena.
 Extraction Language OCaml.
 (* path relative to the directory make runs in (/verif/coq) *)
-Extraction "../oracle/gen/parent_model.ml" answers.
+Extraction "../oracle/gen/parent_model.ml" answers answers_flat.
